@@ -8,7 +8,7 @@ use crate::prng::{Fnv, Rng};
 use crate::ref_container::{self, Codec, Parsed, WriteOpts};
 use crate::ref_datum::{self, Layout};
 use crate::runner::{catch, panic_site, Outcome};
-use crate::simio::{AcceptPlan, RefillPlan, SimSink, SimSource, SinkFault, SourceFault, SourceStats};
+use crate::simio::{RefillPlan, SimSink, SimSource, SinkFault, SourceFault, SourceStats};
 use crate::val::{self, Poison, PoisonKind, PresCfg, PresCtx, Presented, Val, ValCfg};
 use crate::world::{self, ReaderKind};
 use serde_avro_fast::object_container_file_encoding::{Compression, CompressionLevel, Reader, WriterBuilder};
@@ -84,6 +84,12 @@ pub fn count_scale(spec: &FileSpec, out: &mut crate::runner::Outcome) {
 			}
 		}
 	}
+	if !spec.prelude.is_empty() && !spec.owned_config && !spec.via_write_all {
+		classes.push("earlier_writers_on_the_same_configuration");
+		if spec.prelude.iter().any(|p| matches!(p.fault, PreFault::RefuseHeader | PreFault::BadMetadata)) {
+			classes.push("earlier_writer_failed_to_build");
+		}
+	}
 	classes.sort_unstable();
 	classes.dedup();
 	for c in classes {
@@ -114,6 +120,88 @@ pub struct FileSpec {
 	/// are then run-dependent and stay out of digests; sizes and positions are not)
 	#[serde(default)]
 	pub via_write_all: bool,
+	/// EARLIER writers on the same `SerializerConfig` (borrowed configuration only), run before this file's writer is
+	/// built: whatever a writer leaves behind in the configuration — also one whose `build` failed, or that met a
+	/// failing sink — must not show in the next file
+	#[serde(default)]
+	pub prelude: Vec<Prelude>,
+}
+
+#[derive(Clone, Copy, Debug, PartialEq, Eq, Serialize, Deserialize)]
+pub enum PreFault {
+	None,
+	/// the sink refuses the first write (the file header): `build` returns Err
+	RefuseHeader,
+	/// user metadata that cannot be serialized as `map<bytes>`: `build_with_user_metadata` returns Err
+	BadMetadata,
+	/// the sink refuses the first block write; in builds WITHOUT debug assertions it stays broken while the writer is
+	/// dropped (Drop swallows the failure there; with debug assertions Drop panics on purpose, so the sink heals)
+	RefuseBlock,
+}
+
+#[derive(Clone, Copy, Debug, PartialEq, Serialize, Deserialize)]
+pub struct Prelude {
+	pub codec: Codec,
+	pub approx_block_size: u32,
+	pub seed: u64,
+	pub n_vals: u8,
+	pub end: End,
+	pub fault: PreFault,
+	pub with_user_meta: bool,
+}
+
+pub fn gen_prelude(rng: &mut Rng) -> Vec<Prelude> {
+	(0..1 + rng.usize(2))
+		.map(|_| Prelude {
+			codec: gen_codec(rng, false),
+			approx_block_size: *rng.pick(&[0u32, 1, 40, 64 * 1024]),
+			seed: rng.next_u64(),
+			n_vals: rng.below(5) as u8,
+			end: if rng.bool() { End::IntoInner } else { End::Drop },
+			fault: *rng.pick(&[PreFault::None, PreFault::None, PreFault::RefuseHeader, PreFault::BadMetadata, PreFault::RefuseBlock]),
+			with_user_meta: rng.bool(),
+		})
+		.collect()
+}
+
+/// Run the earlier writers of `spec.prelude` on `config`. Nothing is asserted about THEIR files here (each shape is
+/// some other scenario's main file); what matters is the state they leave in the configuration.
+fn run_prelude(spec: &FileSpec, env: &Env, config: &mut SerializerConfig<'_>) {
+	for (pi, p) in spec.prelude.iter().enumerate() {
+		let vcfg = ValCfg { max_len: 4, max_depth: 3, budget: 14, str_boost: 0, scale: None };
+		let mut r = Rng::from_seed(p.seed);
+		let vals: Vec<Val> = (0..p.n_vals).map(|_| val::gen_val(&mut r, env, &spec.schema, &vcfg)).collect();
+		let sink = match p.fault {
+			PreFault::RefuseHeader => SimSink::all().with_faults(vec![SinkFault { at_call: 0, kind: crate::simio::SinkFaultKind::Hard(crate::simio::IoErrKind::Other) }]),
+			PreFault::RefuseBlock => SimSink::all().with_faults(vec![SinkFault { at_call: 1, kind: crate::simio::SinkFaultKind::Hard(crate::simio::IoErrKind::BrokenPipe) }]).stay_broken(!cfg!(debug_assertions)),
+			_ => SimSink::all(),
+		};
+		let _ = catch(|| {
+			let b = WriterBuilder::new(config).compression(to_crate_compression(p.codec)).approx_block_size(p.approx_block_size).sync_marker([pi as u8 + 1; 16]);
+			let built = if p.fault == PreFault::BadMetadata {
+				// values that are not bytes: the header's metadata schema is map<bytes>
+				let bad: BTreeMap<String, i32> = [("k".to_string(), 1)].into_iter().collect();
+				b.build_with_user_metadata(sink.clone(), bad)
+			} else if p.with_user_meta {
+				let m: BTreeMap<String, ByteBuf> = [("earlier".to_string(), ByteBuf::from(vec![pi as u8; 5]))].into_iter().collect();
+				b.build_with_user_metadata(sink.clone(), m)
+			} else {
+				b.build(sink.clone())
+			};
+			if let Ok(mut w) = built {
+				for v in &vals {
+					let ctx = PresCtx::new(env, PresCfg::plain(), None);
+					let _ = w.serialize(Presented::new(v, &spec.schema, &ctx));
+				}
+				match p.end {
+					End::IntoInner => {
+						let _ = w.into_inner();
+					}
+					End::Drop => drop(w),
+				}
+			}
+		});
+	}
 }
 
 impl FileSpec {
@@ -277,6 +365,9 @@ pub fn run_writer(spec: &FileSpec, sink: &SimSink, mut observe: impl FnMut(&Step
 		let mut c = SerializerConfig::new(&schema);
 		c.allow_slow_sequence_to_bytes();
 		owned_slot = Some(c);
+	}
+	if !spec.owned_config && !spec.prelude.is_empty() {
+		run_prelude(spec, &env, &mut config);
 	}
 	let built = catch(|| {
 		match owned_slot.take() {
@@ -1054,6 +1145,7 @@ pub fn gen_filespec(rng: &mut Rng, p: &SpecProfile) -> FileSpec {
 		end: if rng.bool() { End::IntoInner } else { End::Drop },
 		owned_config: rng.chance(1, 4),
 		via_write_all: false,
+		prelude: if rng.chance(1, 8) { gen_prelude(rng) } else { vec![] },
 	}
 }
 
@@ -1161,6 +1253,7 @@ pub fn gen_long_spec(rng: &mut Rng, p: &SpecProfile, max_n: u32) -> FileSpec {
 		end: if rng.bool() { End::IntoInner } else { End::Drop },
 		owned_config: rng.chance(1, 4),
 		via_write_all: false,
+		prelude: if rng.chance(1, 8) { gen_prelude(rng) } else { vec![] },
 	}
 }
 
@@ -1230,6 +1323,7 @@ pub fn gen_blob_spec(rng: &mut Rng, codec: Codec) -> FileSpec {
 		end: if rng.bool() { End::IntoInner } else { End::Drop },
 		owned_config: rng.chance(1, 4),
 		via_write_all: false,
+		prelude: if rng.chance(1, 8) { gen_prelude(rng) } else { vec![] },
 	}
 }
 
